@@ -447,6 +447,7 @@ builtin_dirscan(spif_charptr_t param)
     dir = spiftool_get_word(1, param);
     dirp = opendir((char *) dir);
     if (!dirp) {
+        FREE(dir);
         return NULL;
     }
     buff = (spif_charptr_t) MALLOC(CONFIG_BUFF);
@@ -477,6 +478,7 @@ builtin_dirscan(spif_charptr_t param)
         }
     }
     closedir(dirp);
+    FREE(dir);
     return buff;
 }
 
@@ -943,6 +945,7 @@ spifconf_parse_line(FILE * fp, spif_charptr_t buff)
               if (!(inc_fp = spifconf_open_file(path))) {
                   libast_print_error("Parsing file %s, line %lu:  Unable to locate %%included config file %s (%s), continuing\n", file_peek_path(),
                               file_peek_line(), path, strerror(errno));
+                  FREE(path);
               } else {
                   file_push(inc_fp, path, NULL, 1, 0);
               }
